@@ -135,7 +135,7 @@ func firstDiffByte(a, b []byte) int {
 // members: the REAL iteration orders of the main package's ssa member map (k ranges over the Go map,
 // each in the order the runtime chose) and the order in which the compiler emitted the package's
 // plain functions into the WAT text.  Names are hex-encoded.
-//   out: "members <order1>|<order2>|... wat <hex names in emission order>"   (names within an order joined by ',')
+//   out: "members <order1>|<order2>|... wat <hex function names in emission order> globals <hex global names in emission order>"   (names within an order joined by ',')
 func members(path string, k int) string {
 	src, err := os.ReadFile(path)
 	if err != nil {
@@ -160,13 +160,29 @@ func members(path string, k int) string {
 	}
 	prefix, _ := wir.GetPkgMangleName(pkg.Pkg.Path())
 	isFn := map[string]bool{}
+	isGlobal := map[string]bool{}
 	for name, m := range pkg.Members {
 		if _, ok := m.(*ssa.Function); ok {
 			isFn[name] = true
 		}
+		if _, ok := m.(*ssa.Global); ok {
+			isGlobal[name] = true
+		}
 	}
-	var emitted []string
+	var emitted, emittedGlobals []string
+	lastG := ""
 	for _, ln := range strings.Split(wat, "\n") {
+		if strings.HasPrefix(ln, "(global $"+prefix+".") {
+			rest := ln[len("(global $"+prefix+"."):]
+			if i := strings.IndexAny(rest, " .()"); i >= 0 {
+				rest = rest[:i]
+			}
+			if isGlobal[rest] && rest != lastG {
+				emittedGlobals = append(emittedGlobals, hex.EncodeToString([]byte(rest)))
+				lastG = rest
+			}
+			continue
+		}
 		if !strings.HasPrefix(ln, "(func $"+prefix+".") {
 			continue
 		}
@@ -181,7 +197,11 @@ func members(path string, k int) string {
 	if len(emitted) == 0 {
 		return "err no-functions-found"
 	}
-	return "members " + strings.Join(orders, "|") + " wat " + strings.Join(emitted, ",")
+	g := "-"
+	if len(emittedGlobals) > 0 {
+		g = strings.Join(emittedGlobals, ",")
+	}
+	return "members " + strings.Join(orders, "|") + " wat " + strings.Join(emitted, ",") + " globals " + g
 }
 
 func main() {
